@@ -85,6 +85,18 @@ func (l *Log) Note(format string, a ...interface{}) {
 	}
 }
 
+// EventL is an event whose text is only built when the trace is kept: the
+// hash covers tag and ints (identical in both modes), the text is a note.
+func (l *Log) EventL(tag string, text func() string, v ...int64) {
+	keep := l.Keep
+	l.Keep = false
+	l.EventInts(tag, v...)
+	l.Keep = keep
+	if keep && len(l.Lines) < l.Max {
+		l.Lines = append(l.Lines, text())
+	}
+}
+
 func (l *Log) Hash() uint64 { return l.h }
 func (l *Log) Count() int64 { return l.n }
 
